@@ -97,7 +97,9 @@ class FeeField(DataflowTransactionContext):
 
     @staticmethod
     def _get_asserted_max_value(
-        comparison_ins: "Instruction", compared_value: FeeValue
+        comparison_ins: "Instruction",
+        compared_value: FeeValue,
+        field_is_second_operand: bool = False,
     ) -> Tuple[FeeValue, FeeValue]:
         """Return maximum possible value that will make the comparison True and maximum
         possible value that will make the comparison False. Both values are upper bounded
@@ -106,12 +108,24 @@ class FeeField(DataflowTransactionContext):
         Args:
             comparison_ins: Comparison operator.
             compared_value: fee value being compared with.
+            field_is_second_operand: True if the fee is the second operand of the comparison,
+                i.e the comparison is `compared_value <op> fee`.
 
         Returns:
             Max possible value that will make the comparison instruction return True and
                 Max possible value that will make the comparison False.
         """
         # U = max_possible_value  # universal set
+        if field_is_second_operand:
+            # `c < fee` is satisfied by the same values as `fee > c`.
+            if isinstance(comparison_ins, Less):
+                comparison_ins = Greater()
+            elif isinstance(comparison_ins, LessE):
+                comparison_ins = GreaterE()
+            elif isinstance(comparison_ins, Greater):
+                comparison_ins = Less()
+            elif isinstance(comparison_ins, GreaterE):
+                comparison_ins = LessE()
         if isinstance(comparison_ins, Eq):
             # x == i => i, U
             return compared_value, FeeValue()
@@ -144,6 +158,7 @@ class FeeField(DataflowTransactionContext):
             arg1 = ins_stack_value.args[0]
             arg2 = ins_stack_value.args[1]
             compared_value: Optional[FeeValue] = None
+            field_is_second_operand = False
 
             if isinstance(arg1, UnknownStackValue) and isinstance(arg2, UnknownStackValue):
                 # Both the args are unknown
@@ -156,6 +171,7 @@ class FeeField(DataflowTransactionContext):
                     return FeeValue(), FeeValue()
                 # arg2 is related to key and arg1 is some unknown value
                 compared_value = FeeValue(is_unknown=True)
+                field_is_second_operand = True
             elif isinstance(arg2, UnknownStackValue):
                 if not isinstance(arg1, UnknownStackValue) and not is_value_matches_key(key, arg1):
                     # arg2 is unknown and arg1 is not related to "key"
@@ -175,13 +191,14 @@ class FeeField(DataflowTransactionContext):
                     compared_value = FeeValue(value=value)
                 else:
                     compared_value = FeeValue(is_unknown=True)
+                field_is_second_operand = True
 
             if compared_value is None:
                 # compared_value is not int.
                 return FeeValue(), FeeValue()
 
             ins = ins_stack_value.instruction
-            return self._get_asserted_max_value(ins, compared_value)
+            return self._get_asserted_max_value(ins, compared_value, field_is_second_operand)
         return FeeValue(), FeeValue()
 
     def _get_asserted_single(
